@@ -1,7 +1,7 @@
 //! C15: the rotated search (through the guarded wrapper) and get_latest_volume against Search.tla.
 use crate::common::*;
 use nexrad_data::aws::realtime::verif_rotated_search;
-use serde_json::{json, Value};
+use serde_json::json;
 use std::cell::RefCell;
 
 fn val(n: u64, p: u64, k: u64, i: u64) -> Option<u64> {
